@@ -11,7 +11,10 @@ ASSUMPTIONS = [
 
 CTS = [None, b"application/json", b"APPLICATION/JSON", b"application/json; charset=utf-8", b"Application/Json;x=y", b"application/jsonx",
        b"text/plain", b"text/html; charset=utf-8", b"\x80\xffopaque", b"application/json\t", b" application/json", b"application/jso", b"", b"json",
-       b"application/json\xe9"]
+       b"application/json\xe9",
+       # several Content-Type headers (line feed = header boundary): the first one is the reply's Content-Type
+       b"application/json\ntext/html", b"text/html\napplication/json", b"text/plain\ntext/plain", b"application/json\napplication/json", b"\napplication/json",
+       b"application/json\n"]
 KINDS = ["code", "refresh", "password", "cc", "introspect", "devauth", "revoke"]
 FAM = {"code": "token", "refresh": "token", "password": "token", "cc": "token", "introspect": "introspection", "devauth": "device", "revoke": None}
 
